@@ -555,3 +555,48 @@ Proof.
   split. { repeat (apply Forall_cons; [vm_compute; auto|]). apply Forall_nil. }
   repeat split; vm_compute; reflexivity.
 Qed.
+
+(* 21. THE DIRECTION HYPOTHESIS OF 18 IS NEEDED for an arbitrary gate set: the statement of 18 without dir_kept (amplitude clause) is
+       FALSE.  Witness (integer scalars): cx(0,1) with both qubits measured, relabelling 0 <-> 1, a gate set whose CNOT is the identity
+       and whose CNOT_inv is the zero matrix -- every other hypothesis of 18 holds, both shots succeed, the amplitude of 00 is 1
+       before and 0 after.  (For the package's own gate sets CNOT / CNOT_inv and ECR / ECR_inv are the same operator up to the
+       virtual-Z frame, and only the Born weights are direction-independent: C03_noise_free_born_index for the noise-free set;
+       for noisy sets this stays with the relabelling oracle of checks/c08.py.) *)
+Require Import QG.Proofs.SimLoopOwnWitness.
+Theorem C08_relabel_needs_direction :
+  injN w_pi /\ Forall wf_qiskit w_data /\ process_layout w_data = Ok ([0%N; 1%N], [(0%N, 0%N); (1%N, 1%N)], 2) /\
+  ~ Forall (dir_kept w_pi) w_data /\
+  (forall b, List.length b = 2 -> w_psi (permute (induced (labels [0%N; 1%N]) (pi_nat w_pi)) b) = w_psi b) /\
+  exists cs cs' content content',
+    process_layout (map (relabel_instr w_pi) w_data) = Ok ([0%N; 1%N], map (relabel_meas w_pi) [(0%N, 0%N); (1%N, 1%N)], 2) /\
+    translate_calls unit unit (fun _ => tt) (fun _ => tt) [0%N; 1%N] 2 w_data = Ok cs /\
+    translate_calls unit unit (fun _ => tt) (fun _ => tt) [0%N; 1%N] 2 (map (relabel_instr w_pi) w_data) = Ok cs' /\
+    w_shot cs = Ok content /\ w_shot cs' = Ok content' /\
+    sem Z Z.add Z.mul (map (den Z 0%Z 1%Z) content) w_psi [false; false] = 1%Z /\
+    sem Z Z.add Z.mul (map (den Z 0%Z 1%Z) content') w_psi (permute (induced (labels [0%N; 1%N]) (pi_nat w_pi)) [false; false]) = 0%Z.
+Proof. exact relabel_needs_direction. Qed.
+Print Assumptions C08_relabel_needs_direction.
+
+Definition C08_relabel_any_direction_full : Prop :=
+  forall (T : Type) (rO rI : T) (radd rmul rsub : T -> T -> T) (ropp : T -> T),
+  Ring_theory.ring_theory rO rI radd rmul rsub ropp eq ->
+  forall (A D V : Type) (ph : A -> Z * Z)
+         (g1 : kind1 -> Z * Z -> list V -> m2 T) (g2 : kind2 -> bool -> Z * Z -> Z * Z -> list V -> m4 T) (grelax gflip : list V -> m2 T)
+         (piN : N -> N), injN piN ->
+  forall val val' : tok A D -> V, (forall t, val' (relabel_tok A D piN t) = val t) ->
+  forall (theta : nat -> A) (dur : nat -> D) (data : list SimRun.instr) (used : list N) (meas : list (N * N)) (n : nat) (psi psi' : bits -> T),
+  Forall wf_qiskit data -> process_layout data = Ok (used, meas, n) ->
+  let L := labels used in let data' := map (relabel_instr piN) data in
+  (forall b, List.length b = n -> psi' (permute (induced L (pi_nat piN)) b) = psi b) ->
+  exists used' cs cs',
+    process_layout data' = Ok (used', map (relabel_meas piN) meas, n) /\
+    translate_calls A D theta dur used (Z.of_nat n) data = Ok cs /\
+    translate_calls A D theta dur used' (Z.of_nat n) data' = Ok cs' /\
+    forall layout layout' : option (list Z), exists content content',
+      own_shot A D V val ph (mat T) (mid2 T rO rI) (gs T V g1 g2 grelax gflip) n layout cs = Ok content /\
+      own_shot A D V val' ph (mat T) (mid2 T rO rI) (gs T V g1 g2 grelax gflip) n layout' cs' = Ok content' /\
+      (forall b, List.length b = n ->
+         sem T radd rmul (map (den T rO rI) content') psi' (permute (induced L (pi_nat piN)) b) = sem T radd rmul (map (den T rO rI) content) psi b).
+Theorem C08_relabel_any_direction_refuted : ~ C08_relabel_any_direction_full.
+Proof. exact relabel_any_direction_refuted. Qed.
+Print Assumptions C08_relabel_any_direction_refuted.
